@@ -371,6 +371,17 @@ def render_extract(ex, mode=None, canary=None, lenient=False):
     text = strip_attrs(raw)
     # rewrites (declared, literal)
     info['dropped'] = []
+    if getattr(ex, 'generic', False):
+        # generic forms of the stated rules for helpers that no template describes
+        def r45(m):
+            return ('let mut verif_i: usize = %s.len(); while verif_i > 0 invariant verif_i <= %s.len() decreases verif_i { verif_i = verif_i - 1; let %s = &%s[verif_i];'
+                    % (m.group(2), m.group(2), m.group(1), m.group(2)))
+        text, n45 = re.subn(r'for\s+([a-z_][a-z_0-9]*)\s+in\s+([a-z_][a-z_0-9]*)\.iter\(\)\.rev\(\)\s*\{', r45, text)
+        if n45:
+            info['rewrites'].append({'rule': 'R45', 'from': 'for x in v.iter().rev() {', 'to': 'index loop from the back', 'count': n45})
+        text, n1 = re.subn(r'format!\((?:[^()]|\([^()]*\))*\)', 'verif_opaque_string()', text)
+        if n1:
+            info['rewrites'].append({'rule': 'R1', 'from': 'format!(...)', 'to': 'verif_opaque_string()', 'count': n1})
     for allf, rule, frm, to in ex.replaces:
         if allf in ('span', 'upto'):
             # the text from the (unique) start literal up to and including the next end literal is replaced as a whole
@@ -509,7 +520,7 @@ def render_extract(ex, mode=None, canary=None, lenient=False):
     return '\n'.join(ex.attrs + [out]), info
 
 
-def generate(unit, mode=None, canary=None, lenient=False, drop_hints_for=()):
+def generate(unit, mode=None, canary=None, lenient=False, drop_hints_for=(), extra_fns=()):
     """Render units/<unit>.rs.  Returns dict(text, regions, items, notes, canaries, has_requires)."""
     gen_py = os.path.join(VERIF, 'units', unit + '.py')
     if os.path.exists(gen_py):
@@ -520,7 +531,41 @@ def generate(unit, mode=None, canary=None, lenient=False, drop_hints_for=()):
         spec.loader.exec_module(mod)
         return mod.render(mode=mode, canary=canary)
     tpl = os.path.join(VERIF, 'units', unit + '.rs')
+    return generate_tpl(tpl, unit, mode, canary, lenient, drop_hints_for, extra_fns)
+
+
+def generate_from_text(unit, text, mode=None, canary=None):
+    """Template text produced by a data-driven unit (with the extracted statements already filled in)."""
+    d = os.path.join(VERIF, 'build')
+    os.makedirs(d, exist_ok=True)
+    tpl = os.path.join(d, '_tpl_%s%s.rs' % (unit, ('_' + mode) if mode else ''))
+    with open(tpl, 'w') as f:
+        f.write(text)
+    return generate_tpl(tpl, unit, mode, None, False, (), ())
+
+
+def generate_tpl(tpl, unit, mode=None, canary=None, lenient=False, drop_hints_for=(), extra_fns=()):
     nodes = parse_template(tpl)
+    if extra_fns:
+        # helper functions the extracted code calls but the template does not know (e.g. introduced by a refactoring):
+        # cut them out of the same source file and verify them too, without a contract (so they must be safe for every input)
+        idx = None
+        for i in range(len(nodes) - 1, 0, -1):
+            if nodes[i][0] == 'text' and nodes[i][1].strip() == 'fn main() {}':
+                for j in range(i - 1, -1, -1):
+                    if nodes[j][0] == 'text' and nodes[j][1].strip() == '}':
+                        idx = j
+                        break
+                break
+        if idx is not None:
+            extras = []
+            for name, path in extra_fns:
+                ex = Extracted()
+                ex.kind, ex.name, ex.path, ex.impl, ex.nth, ex.tpl_line = 'fn', name, path, None, 0, 0
+                ex.generic = True
+                extras.append(('note', 'auto-extracted helper %s (called by extracted code, not named in the template): verified without a contract' % name))
+                extras.append(('extract', ex))
+            nodes = nodes[:idx] + extras + nodes[idx:]
     out_lines = []
     regions = []  # (first_line, last_line, kind, name)
     items = []
